@@ -222,8 +222,8 @@ namespace
         }
         auto data = nav->value.data_try<d_array>();
         if (data)
-        {
-            return data;
+        { // a copy: what a script does to the array it got must not change the config
+            return data->copy_deep();
         }
         else
         {
